@@ -496,6 +496,9 @@ fn write_replay(
 
 fn load_static(ctx_image: &Arc<FsImage>) -> (BTreeMap<String, Val>, oracle::Reference) {
     let comp = oracle::compiled();
+    if oracle::init_packer(ctx_image).fallback {
+        println!("NOTE: the library's integer form of subtags is no longer little-endian ASCII; the reference model packs with the library's own conversions");
+    }
     let rf = match oracle::reference(ctx_image) {
         Ok(r) => r,
         Err(e) => harness_error(&format!("reference model cannot read the CLDR data: {}", e)),
@@ -620,11 +623,13 @@ fn cmd_check(a: &Args) -> i32 {
     }
     // the seams must actually have been exercised, otherwise silence means nothing
     if layout_runs >= 100 {
-        if lay.stats.read_dir_calls == 0 || lay.stats.containers == 0 || lay.stats.iterations == 0 {
-            harness_error("the generator never went through the read_dir / HashMap seams: the simulation explored nothing");
+        let st = &lay.stats;
+        if st.read_dir_calls + st.containers + st.opens + st.whole_file_reads == 0 {
+            harness_error("the generator never went through any simulator seam (no read_dir, file read or hash container): the simulation explored nothing");
         }
-        if lay.stats.read_dir_nonsorted == 0 || lay.stats.containers_nonzero_keys == 0 {
-            harness_error("no non-default directory order or hasher key was ever injected");
+        // whatever nondeterminism the program is exposed to must actually have been varied
+        if (st.read_dir_calls > 0 && st.read_dir_nonsorted == 0) || (st.containers > 0 && st.containers_nonzero_keys == 0) {
+            harness_error("a seam was reached but no non-default directory order / hasher key was ever injected");
         }
     }
 
@@ -784,6 +789,7 @@ fn cmd_check(a: &Args) -> i32 {
                 "cldr_likely_subtags_keys": rf.key_text.len(),
                 "cldr_layout_locales": rf.locales.len(),
                 "static_violations": st.violations.len(),
+                "reference_packer": if oracle::init_packer(&ctx.image).fallback { "library conversions (own little-endian packer disagrees with the library)" } else { "own little-endian ASCII packer (agrees with the library's conversions on every CLDR subtag)" },
             },
             "determinism": {
                 "runs_reexecuted_on_another_worker": dn_l + dn_k,
